@@ -172,3 +172,17 @@ def small_fraction(frac: Fraction, bound: int = 30000):
     if abs(f.numerator) > bound:
         return (0, 1, False)
     return (f.numerator, f.denominator, abs(frac - f) <= 1e-9 * max(1, abs(f)))
+
+
+def decimal_text(n: int, d: int) -> str:
+    """n/d as a decimal numeral when it terminates (d = 2^a 5^b), else 'n/d'."""
+    import decimal
+
+    dd = d
+    for p in (2, 5):
+        while dd % p == 0:
+            dd //= p
+    if dd != 1:
+        return f"{n}/{d}"
+    q = decimal.Context(prec=60).divide(decimal.Decimal(n), decimal.Decimal(d))
+    return format(q.normalize(), "f")
